@@ -4,4 +4,4 @@ Extraction Language OCaml.
 Separate Extraction
   read_tsig_try_from validate_as_tsig verify sign unsigned unsigned_len signed_len new_from_read
   alg_from_name r_time_signed r_fudge r_mac r_original_id r_error r_other read_digest sign_digest
-  finish_tsig reserved_len tsig_rr_uncompressed time_signed_of_unix to_unix_time to_lowercase_name ttl_of_u32.
+  finish_tsig reserved_len tsig_rr_uncompressed time_signed_of_unix to_unix_time to_lowercase_name ttl_of_u32 finish_tail opt_rr.
